@@ -183,6 +183,9 @@ def main(argv=None):
         profile = ["mixed", "burst", "trickle", "bulk"][i % 4]
         histories.append((f"random-{profile}-{i}", ck.rng.random() > 0.08, gen.random_history(ck.rng, profile)))
     pending, wire = run_sqlite_histories(ck, sq, Event, histories, 0, "sqlite:")
+    # API-level stream (store opened through Datastore in every option combination) and buckets of >= 10001 events
+    from . import c06_api
+    c06_api.run(ck, sq, Event, quick, have_driver)
     if have_driver:
         # state-level stream (Model/CrashStore.v, Props/C06State.v): full table dumps at every crash point
         from . import c06_state
@@ -209,7 +212,7 @@ def main(argv=None):
     ]
     ck.trusted += ["translate/k_commit.py (tie B: commit, conditional_commit, per-method scripts, peewee chunking)",
                    "SQLite 3.40 transaction atomicity and WAL durability (oracle, sampled)"]
-    return ck.finish(RULE)
+    return ck.finish(RULE + c06_api.RULE)
 
 
 if __name__ == "__main__":
